@@ -66,6 +66,7 @@ func propC03(w *World, r *Run) {
 	ruleRefusalErrorCarriesNoCosignature(w, r, "C03.b")
 	ruleEndpointErrorBodies(w, r, "C03.e")
 	ruleAdapter(w, r, "C03.f")
+	ruleNoDetachedAnswer(w, r, "C03.g")
 }
 
 func propC04(w *World, r *Run) {
@@ -100,6 +101,7 @@ func propC07(w *World, r *Run) {
 	ruleAdapter(w, r, "C07.e")
 	ruleNoLeakedTx(w, r, "C07.f")
 	ruleNoFalseSuccessAtEndpoint(w, r, a, "C07.h")
+	ruleNoMemoisedStorageError(w, r, "C07.i")
 }
 
 func propC08(w *World, r *Run) {
@@ -116,6 +118,7 @@ func propC08(w *World, r *Run) {
 	ruleParseBodyTotal(w, r, "C08.d", "C08.d")
 	ruleServeHTTP(w, r, "C08.e", "C08.e", "C08.e")
 	ruleStrictInteger(w, r, "C08.f")
+	ruleWitnessBytesImmutable(w, r, "C08.g")
 }
 
 func propC09(w *World, r *Run) {
@@ -129,6 +132,8 @@ func propC09(w *World, r *Run) {
 	ruleTouchByComparison(w, r, a, "C09.c")
 	ruleNotFoundExact(w, r, "C09.d")
 	ruleParseBodyTotal(w, r, "C09.e", "C09.e")
+	ruleAdapter(w, r, "C09.f")
+	ruleComposedInMemory(w, r, "C09.g")
 }
 
 func propC20(w *World, r *Run) {
@@ -141,6 +146,7 @@ func propC20(w *World, r *Run) {
 	ruleCounterLabel(w, r, a, "C20.b")
 	ruleInitBeforeUse(w, r, "C20.d")
 	ruleLabelArity(w, r, "C20.e")
+	ruleCommitBeforeAck(w, r, "C20.f")
 }
 
 func init() {
@@ -201,6 +207,7 @@ func propC10(w *World, r *Run) {
 	ruleSentinelExhaustive(w, r, a, "C10.a")
 	ruleStrictInteger(w, r, "C10.f")
 	ruleParseBodyTotal(w, r, "C10.f", "C10.f")
+	ruleAdapter(w, r, "C10.i")
 }
 
 func propC11(w *World, r *Run) {
@@ -229,6 +236,7 @@ func propC13(w *World, r *Run) {
 	ruleAdapter(w, r, "C13.f")
 	ruleNoLeakedTx(w, r, "C13.g")
 	ruleFetchUnderCallersContext(w, r, "C13.h")
+	ruleNeverGivesUp(w, r, "C13.i")
 }
 
 func init() {
@@ -279,6 +287,7 @@ func propC12(w *World, r *Run) {
 	ruleOneWitness(w, r, "C12.d")
 	ruleGlobals(w, r, "C12.e", []string{pWitness, pBastion, pRest, pMon, pInmem, pSQL, pOmni, pConfig, pFeeder})
 	ruleImmut(w, r, "C12.e", immutCoreFields(w, r, "C12.e"))
+	ruleReadAPIAs(w, r, "C12.g")
 }
 
 func propC14(w *World, r *Run) {
@@ -317,6 +326,8 @@ func propC17(w *World, r *Run) {
 	ruleNewLogShape(w, r, "C17.c")
 	ruleNewKeepsConfig(w, r, "C17.d")
 	ruleYAMLStrictness(w, r, "C17.a")
+	ruleGlobalContainers(w, r, "C17.e", []string{pConfig, pOmni, pFeeder, pBastion, pRest})
+	ruleConfigSliceNotMutated(w, r, "C17.f")
 }
 
 func propC18(w *World, r *Run) {
@@ -327,6 +338,7 @@ func propC18(w *World, r *Run) {
 	ruleNoManualEncoding(w, r, "C18.e")
 	ruleReadLimitsConstant(w, r, "C18.f")
 	ruleFeederAs(w, r, "C18.g")
+	ruleHonestStep(w, r, analyseUpdate(w, r), "C18.h", "0<stored<submitted") // a growth step between two non-zero sizes: what a feeder's proof is for
 }
 
 func propC19(w *World, r *Run) {
